@@ -740,3 +740,21 @@ Section Instance.
     match l with [] => s | a :: r => run_history (snd (call a s)) r end.
   Definition result_after (ys : list A) (x : A) : R := fst (call x (run_history init ys)).
 End Instance.
+
+(** * 15. flattenModel's result and its argument (src/importer.cpp: Importer::flattenModel)
+
+    [actions_of] starts with the creation of the result ([flatModel = model->clone()]): the result is the object numbered
+    [next_id] at entry.  The regenerated tables GlobalSites.flatten_result_exprs / flatten_calls / flatten_model_passed give
+    every expression assigned to the returned variable, every [receiver->method(] call of the function and every function
+    its parameter is handed to; the parameter itself may only be read: *)
+Definition result_object (w : world) : nat := next_id w.
+Definition model_reader_methods : list string := ["clone"; "isDefined"; "hasImports"; "hasUnresolvedImports"; "name"].
+Definition model_reader_functions : list string := ["hasImportIssues"].
+Definition flatten_reads_argument_only (calls : list (string * string)) (passed : list string) : bool :=
+  forallb (fun rm => if String.eqb (fst rm) "model" then existsb (String.eqb (snd rm)) model_reader_methods else true) calls
+  && forallb (fun f => existsb (String.eqb f) model_reader_functions) passed.
+
+(** what a caller can observe of an object: the dump of its content, which objects it refers to (parent, the units object of a
+    variable, children, import source) and the lazily fixable status predicates — hasUnlinkedUnits, hasUnresolvedImports,
+    isDefined, interface types, ids.  All of it is a function of [content]. *)
+Definition observation (X : Type) := nat -> X.
